@@ -631,6 +631,30 @@ def probe_huge_sparse_file(chk, impl):
     return found
 
 
+def probe_buffered_record_crosses_midnight(chk, impl, model):
+    """C09, known finding F21 (deterministic): a record written at 23:59 stays in QFile's write buffer (nobody flushes or looks),
+    the sink is destroyed at 00:01 - the data reaches the file then and the kernel stamps it with the NEW day - and a new sink
+    object dates the file to the new day and appends without rotating: two calendar days share one file."""
+    case = {'L': 0, 'N': 0, 'opts': 2, 'gran': 1, 'base': b'my.app', 'suffix': b'log', 't0': 19700 * DAY + DAY - 60000, 'tz': 0,
+            'quiet': True, 'ops': [('w', b'day1 record'), ('adv', 120000), ('restart',), ('w', b'day2 record'), ('end',)]}
+    ls, _ = run_impl_one(impl, case)
+    if len(ls) != len(case['ops']) + 1 or ls[-1] is None:
+        chk.broke('buffered-record probe: harness produced no listing', {'kind': 'harness', 'case': case_json(case)})
+        return 0
+    bits, _, _, _ = verdicts(case, model, ls, 'C09')
+    if first_bad(bits, BIT['C09']) is None:
+        return 0
+    chk.fail('C09 falsified on the real RotatingFileSink: daily rotation, no size limit; a record written 60 s before midnight is still '
+             'buffered when the sink is destroyed 60 s after midnight, the restarted sink dates the file to the new day and appends: '
+             'records of two calendar days share %s' % [n.decode() for (n, _, c) in ls[-1] if c.count(b'\n') > 1],
+             {'kind': 'buffered-record-crosses-midnight-restart',
+              'history': ['my.app.log L=0 N=0 options=2 (daily) t0=%d (23:59:00 UTC), nothing flushes or looks until the end' % case['t0']]
+                         + [show_op(o) for o in case['ops']],
+              'final_listing': show_listing(ls[-1]), 'case': case_json(case),
+              'oracle_bits(c05,c06,c07,c09)': bits}, kind='buffered-record-crosses-midnight-restart')
+    return 1
+
+
 def run_check(pid):
     chk = vlib.Check(pid)
     bit = BIT[pid]
@@ -643,6 +667,7 @@ def run_check(pid):
     chk.assumptions = ['the wall clock never goes backwards (Advance dt >= 0) and stays before 9999-12-31; the process time zone is a fixed offset (no DST change during a history)',
                        'no other program creates files matching the sink\'s rotated-name scheme while it runs (pre-existing ones = an earlier life of the same sink)',
                        '(L, N, options) stay fixed across restarts; messages are dated by the wall clock at the time they are written (synchronous logging; DESIGN F7)',
+                       'every record reaches the file, and stamps it, at the time it is written (the sink is flushed / looked at between operations); the other case is the open finding F21, probed deterministically by C09',
                        'no I/O errors (C10), a UTF-8 locale (C, fa_IR, ar_EG exercised), rotation indices below 2^31']
     chk.proof(vlib.proof_leg('Properties_' + pid, ['rotate']))
     model = vlib.build_model('rotate')
@@ -751,6 +776,8 @@ def run_check(pid):
         chk.cov['two_sink_objects_probe_failures'] = probe_two_sink_objects(chk, impl, model)
     if pid == 'C07':
         chk.cov['huge_sparse_file_probe_failures'] = probe_huge_sparse_file(chk, impl)
+    if pid == 'C09':
+        chk.cov['buffered_record_crosses_midnight_probe_failures'] = probe_buffered_record_crosses_midnight(chk, impl, model)
     if not shape_std and not falsified and not disagreements:
         chk.broke('the decision shapes translated from the source differ from the proven ones but no difference was observed', {'kind': 'shape'})
 
